@@ -1108,21 +1108,45 @@ def check_c16(c, result):
         if ga != g0:
             diff = [l for l in ga if l not in set(g0)][:1]
             result.violations.append(payload_replay('C16', 'evaluating queries modified the loaded graph', [x for _, x in hist][:20], 'first changed entity: %s' % (diff[0][:300] if diff else ''), c.files))
-    # console: piped stdin, in one write and byte at a time
-    lines = [t.replace('\r\n', ' ').replace('\n', ' ').replace('\r', ' ') for _, t in base[:6]] + ['FROM WHERE', base[0][1].replace('\r\n', ' ').replace('\n', ' ').replace('\r', ' ')]
+    # console: piped stdin, in one write and byte at a time.  Every submitted line is answered, in order, with the
+    # answer of a stand-alone run; invalid lines with unbalanced brackets / quotes stand between valid ones
+    flat = lambda t: t.replace('\r\n', ' ').replace('\n', ' ').replace('\r', ' ')
+    okq = [flat(t) for _, t in base[:6]]
+    unbalanced = ['FROM method_declaration AS m WHERE (m.getName() == "a" SELECT m', 'FROM method_declaration AS m WHERE m.getName( == "x" SELECT m.getName()',
+                  'FROM method_declaration AS m WHERE m.getName() == "a SELECT m', 'FROM method_declaration AS m WHERE m.getName() in ["a", "b" SELECT m',
+                  'predicate p(method_declaration x) { x.getName() == "a" FROM method_declaration AS m WHERE p(m) SELECT m', ')', ']', '}', '"', '((((', 'FROM WHERE']
+    lines = []
+    for i, u in enumerate(unbalanced):
+        lines += [okq[i % len(okq)], u]
+    lines += [okq[0], 'FROM class_declaration AS cd SELECT cd.getName()']
     data = ('\n'.join(lines) + '\n:quit\n').encode()
+    alone, _, _ = c.run([('cl%d' % i, t) for i, t in enumerate(lines)])
     for chunking in ('one', 'bytes', 'lines') if c.tier == 'thorough' else ('one', 'bytes'):
-        answered = console_run(c, data, chunking)
+        answered = console_run(c, data, chunking, transcript=True)
         c.stats['c16_console_sessions'] += 1
-        if answered != len(lines):
-            result.violations.append(dict(property='C16', what='console answered %d of %d submitted lines (stdin delivered: %s)' % (answered, len(lines), chunking),
+        if answered == -1 or len(answered) != len(lines):
+            result.violations.append(dict(property='C16', what='console answered %s of %d submitted lines (stdin delivered: %s)' % (len(answered) if answered != -1 else 'none (no end within 120 s)', len(lines), chunking),
                                           stdin=data.decode(), project=[(p, d.decode('utf-8', 'replace')) for p, d in c.files],
                                           how='pipe the stdin text into `pathfinder query --stdin --project D --output json` and count the "Executing query:" banners'))
+            continue
+        for i, (t, ans) in enumerate(zip(lines, answered)):
+            oc, payload = alone.get('cl%d' % i, ('missing', ''))
+            c.stats['c16_console_answers_compared'] += 1
+            want = tuples_of(payload, 1) if oc == 'ok' else None
+            doc = next((l for l in ans.split('\n') if l.startswith('{"output"')), None)
+            got = tuples_of(doc, 1) if doc is not None else None
+            if want != got:
+                result.violations.append(dict(property='C16', what='the console\'s answer to line %d differs from the stand-alone answer (stdin delivered: %s)' % (i + 1, chunking), line=t,
+                                              stand_alone='%s, %s results' % (oc, sum(want.values()) if want is not None else '-'), console=(ans[:300] if got is None else '%d results' % sum(got.values())),
+                                              stdin=data.decode(), project=[(p, d.decode('utf-8', 'replace')) for p, d in c.files],
+                                              how='pipe the stdin text into `pathfinder query --stdin --project D --output json`; compare with `pathfinder query --project D --output json --query <line>`'))
+                break
     c.samples += [t for _, t in hist[:3]]
 
 
-def console_run(c, data, chunking):
-    """feeds data to `pathfinder query --stdin`; returns the number of answered lines"""
+def console_run(c, data, chunking, transcript=False):
+    """feeds data to `pathfinder query --stdin`; returns the number of answered lines (or, with transcript, the list of
+    the texts that follow each `Executing query:` banner)"""
     p = subprocess.Popen([B + '/pathfinder', 'query', '--disable-metrics', '--stdin', '--project', c.proj, '--output', 'json'],
                          stdin=subprocess.PIPE, stdout=subprocess.PIPE, stderr=subprocess.PIPE, env=dict(ENV, HOME=c.work))
     try:
@@ -1151,6 +1175,8 @@ def console_run(c, data, chunking):
             p.wait(timeout=60)
         except Exception:
             return -1
+    if transcript:
+        return out.decode('utf-8', 'replace').split('Executing query: ')[1:]
     return out.decode('utf-8', 'replace').count('Executing query: ')
 
 
